@@ -23,3 +23,5 @@ mod c13;
 mod c15;
 #[cfg(kani)]
 mod c17;
+#[cfg(kani)]
+mod lp;
